@@ -5,7 +5,7 @@ Reference models written from the statement / docstrings: the emitted sequence m
 PrintBuffer output is compared through str.split(end); CircularBuffer against the tail of the put history (plain list).
 """
 import io, itertools, random
-from _util import at, take, ok, Fail, check, call
+from _util import take, ok, Fail, check, call
 
 from windpyutils.buffers import Buffer, PrintBuffer
 from windpyutils.structures.circular_buffer import CircularBuffer
